@@ -340,11 +340,20 @@ let decode_cmd (f : string list) : cmd =
       | "base" -> CRebase (TBaseAncestor (nat_of_int (int_of_string (a 2))))
       | "head" -> CRebase (THeadAncestor (nat_of_int (int_of_string (a 2))))
       | _ -> raise Bad_request)
+  | "pick" -> (
+      let nm = if a 3 = "_" then None else Some (str_of_hex (a 3)) in
+      let na = has_flag (a 4) "noapply" in
+      match a 1 with
+      | "patch" -> CPick (TPatch (str_of_hex (a 2)), nm, na)
+      | "base" -> CPick (TBaseAncestor (nat_of_int (int_of_string (a 2))), nm, na)
+      | "head" -> CPick (THeadAncestor (nat_of_int (int_of_string (a 2))), nm, na)
+      | _ -> raise Bad_request)
   | "inspect" -> CInspect
   | "gedit" -> GEdit (nat_of_int (int_of_string (a 1)), n_of_decimal (a 2))
   | "gcommit" -> GCommit (n_of_decimal (a 1), str_of_hex (a 2))
   | "gamend" -> GAmend (n_of_decimal (a 1), str_of_hex (a 2))
   | "gmerge" -> GMerge (n_of_decimal (a 1))
+  | "gconfig" -> GConfigApc (a 1 = "1")
   | "greset" -> (
       match a 1 with
       | "patch" -> GResetHard (TPatch (str_of_hex (a 2)))
